@@ -16,8 +16,12 @@ theorem C09_wire_decoders_from_source :
     (∀ old, Gen.bindata.dec old = decBin old) ∧ Gen.UserProp.dec = decPair ∧ Gen.rawdata.dec = decRaw :=
   ⟨Tie.WireVar.bindata_dec, Tie.WireVar.userProp_dec, Tie.WireVar.rawdata_dec⟩
 
-/-- `UserProp.fill` is the model's filler -/
-theorem C02_userProp_fill_from_source (kv : Bytes × Bytes) : Gen.UserProp.fill kv = fillPair kv.1 kv.2 :=
-  Tie.WireVar.userProp_fill kv
+/-- `UserProp.fill` is the model's filler, and **`UserProperties.properties`** — the method every packet type's
+`properties` ends with: the pairs in order, each through `UserProp.fillProp` (nothing for an empty key, else the
+identifier `UserProperty` and the pair) — is the model's `fillUserProps` -/
+theorem C02_userProp_fill_from_source :
+    (∀ kv : Bytes × Bytes, Gen.UserProp.fill kv = fillPair kv.1 kv.2)
+    ∧ (∀ ups : UserProps, Gen.UserProperties.properties ups = fillUserProps ups) :=
+  ⟨Tie.WireVar.userProp_fill, Tie.WireVar.userProps_fill⟩
 
 end Mq
